@@ -294,14 +294,30 @@ type mvRead struct {
 // runMoving runs ONE real updateBest while heads move: a move "m<k>:<conn>:<seqno>" is a SetMasterHead(conn, seqno)
 // executed just before the k-th MasterHead() call (0-based) that updateBest makes through the conn interface (gate
 // "head"); every value updateBest reads is recorded (gate "head.done"). args: <strategy> <prev> <alive:seqno:rtt>...
-// m<k>:<conn>:<seqno>...
+// m<k>:<conn>:<seqno>... r<i>:<conn>:<rtt>... (r: the round-trip time of <conn> changes just before the refresh reads
+// member i; the returned members carry the round-trip time each member has at ITS OWN turn)
 func runMoving(a []string) (st string, prev int, ms []member, reads []mvRead, got int) {
+	defer func() {
+		for turn := 0; turn < len(ms); turn++ { // in the order in which the changes happen
+			for _, x := range a[2:] {
+				if strings.HasPrefix(x, "r") {
+					f := strings.Split(x[1:], ":")
+					if i, c := atoi(f[0]), atoi(f[1]); i == turn && c < len(ms) && i <= c {
+						ms[c].rtt = int64(atoi(f[2]))
+					}
+				}
+			}
+		}
+	}()
 	st, prev = a[0], atoi(a[1])
-	var mem, moves []string
+	var mem, moves, rmoves []string
 	for _, x := range a[2:] {
-		if strings.HasPrefix(x, "m") {
+		switch {
+		case strings.HasPrefix(x, "m"):
 			moves = append(moves, x[1:])
-		} else {
+		case strings.HasPrefix(x, "r"):
+			rmoves = append(rmoves, x[1:])
+		default:
 			mem = append(mem, x)
 		}
 	}
@@ -332,6 +348,13 @@ func runMoving(a []string) (st string, prev int, ms []member, reads []mvRead, go
 					if atoi(f[0]) == calls {
 						q, _ := strconv.ParseUint(f[2], 10, 32)
 						s.vs[atoi(f[1])].SetMasterHead(pool.VerifHead(uint32(q)))
+					}
+				}
+				// the refresh is about to read member <calls>: round-trip times change now
+				for _, mv := range rmoves {
+					f := strings.Split(mv, ":")
+					if atoi(f[0]) == calls {
+						s.vs[atoi(f[1])].VerifSetRTT(time.Duration(atoi(f[2])))
 					}
 				}
 				calls++
@@ -401,6 +424,8 @@ func genSelectMoving(g *h.G, out func(op string, args ...string)) {
 	// the two-pass witness: after the max pass member 1 moves 10 -> 12 and member 0 moves 5 -> 9
 	emit(pool.BestPingStrategy, "-1", "1:5:1", "1:10:2", "m2:1:12", "m2:0:9")
 	emit(pool.FirstWorkingConnection, "1", "1:5:1", "1:10:2", "m2:1:12", "m2:0:9")
+	// the incumbent's round-trip time changes after it has been compared once: A(5) B(6) C(7), A -> 10 before C's turn
+	emit(pool.BestPingStrategy, "-1", "1:5:5", "1:5:6", "1:5:7", "r2:0:10")
 	n := g.Scale(300, 6000)
 	for k := 0; k < n; k++ {
 		nc := 1 + g.Rng.Intn(4)
@@ -423,6 +448,9 @@ func genSelectMoving(g *h.G, out func(op string, args ...string)) {
 			c := g.Rng.Intn(nc)
 			heads[c] += uint32(1 + g.Rng.Intn(3))
 			args = append(args, fmt.Sprintf("m%d:%d:%d", g.Rng.Intn(2*nc+1), c, heads[c]))
+		}
+		for j, nr := 0, g.Rng.Intn(3); j < nr; j++ {
+			args = append(args, fmt.Sprintf("r%d:%d:%d", g.Rng.Intn(nc), g.Rng.Intn(nc), 1+g.Rng.Intn(4)))
 		}
 		g.Count(fmt.Sprintf("moving_members_%d", nc))
 		emit(args...)
